@@ -81,7 +81,7 @@ func NewCtx(id, tier string) *Ctx {
 	if repo == "" {
 		repo = "/repo"
 	}
-	dl := 150
+	dl := 240
 	if tier == "thorough" {
 		dl = 1500
 	}
